@@ -74,6 +74,56 @@ func expandGuard(g Guard, depth int) []Guard {
 			for _, eg := range edgeGuardsRaw(c.Block().Preds[i], c.Block()) {
 				out = append(out, eg)
 			}
+		} else {
+			// general case (a boolean accumulated over several tests: `bad := t1; if !bad { bad = t2 } …`):
+			// an edge whose incoming value is known — a constant, or the very value its own branch
+			// condition settles — and differs from the φ's known value was not taken; what holds on all
+			// the remaining edges holds here
+			var sets [][]Guard
+			for i, e := range c.Edges {
+				pred := c.Block().Preds[i]
+				conds := rawEdgeConds(pred, c.Block())
+				known, val := false, false
+				if k, isK := e.(*ssa.Const); isK && k.Value != nil {
+					known, val = true, k.Value.String() == "true"
+				} else {
+					for _, eg := range conds {
+						if eg.Cond == e {
+							known, val = true, eg.Val
+						}
+						if u, isU := eg.Cond.(*ssa.UnOp); isU && u.Op.String() == "!" && u.X == e {
+							known, val = true, !eg.Val
+						}
+					}
+				}
+				if known && val != g.Val {
+					continue
+				}
+				fs := append([]Guard{}, conds...)
+				if !known {
+					fs = append(fs, expandGuard(Guard{e, g.Val, g.At}, depth+1)...)
+				}
+				sets = append(sets, fs)
+			}
+			if len(sets) > 0 && len(sets) < len(c.Edges) {
+				for _, g0 := range sets[0] {
+					common := true
+					for _, s := range sets[1:] {
+						found := false
+						for _, g1 := range s {
+							if g1.Cond == g0.Cond && g1.Val == g0.Val {
+								found = true
+							}
+						}
+						if !found {
+							common = false
+						}
+					}
+					if common {
+						out = append(out, expandGuard(g0, depth+1)...)
+					}
+				}
+			}
 		}
 	}
 	return out
@@ -116,6 +166,89 @@ func edgeGuards(from, to *ssa.BasicBlock) []Guard {
 				out = append(out, expandGuard(Guard{iff.Cond, true, iff}, 0)...)
 			} else if from.Succs[1] == to {
 				out = append(out, expandGuard(Guard{iff.Cond, false, iff}, 0)...)
+			}
+		}
+	}
+	return out
+}
+
+// DeepGuard is a guard fact together with the function whose values it speaks about.
+type DeepGuard struct {
+	Fn *ssa.Function
+	Guard
+}
+
+// guardsAtDeep: the guard facts of block b of f, plus — for every fact that is the outcome of an unexported
+// boolean predicate helper h(...) — the facts that hold inside h on every return that delivers that outcome
+// (constant true/false results only). The helper's facts speak about the helper's own values.
+func (w *World) guardsAtDeep(f *ssa.Function, b *ssa.BasicBlock) []DeepGuard {
+	var out []DeepGuard
+	for _, g := range guardsAt(b) {
+		out = append(out, DeepGuard{f, g})
+		cond, val := g.Cond, g.Val
+		if u, ok := cond.(*ssa.UnOp); ok && u.Op.String() == "!" {
+			cond, val = u.X, !val
+		}
+		call, ok := cond.(*ssa.Call)
+		if !ok {
+			continue
+		}
+		h := callee(call)
+		if h == nil || !w.inPkg(h) || len(h.Blocks) == 0 || h.Signature.Results().Len() != 1 || h.Signature.Results().At(0).Type().String() != "bool" {
+			continue
+		}
+		var sets [][]Guard
+		okAll := true
+		for _, hb := range h.Blocks {
+			rt, isRet := hb.Instrs[len(hb.Instrs)-1].(*ssa.Return)
+			if !isRet {
+				continue
+			}
+			k, isK := rt.Results[0].(*ssa.Const)
+			if !isK || k.Value == nil {
+				okAll = false
+				break
+			}
+			if (k.Value.String() == "true") != val {
+				continue
+			}
+			sets = append(sets, guardsAt(hb))
+		}
+		if !okAll || len(sets) == 0 {
+			continue
+		}
+		// facts common to all the returns with that outcome
+		for _, g0 := range sets[0] {
+			common := true
+			for _, s := range sets[1:] {
+				found := false
+				for _, g1 := range s {
+					if g1.Cond == g0.Cond && g1.Val == g0.Val {
+						found = true
+					}
+				}
+				if !found {
+					common = false
+				}
+			}
+			if common {
+				out = append(out, DeepGuard{h, g0})
+			}
+		}
+	}
+	return out
+}
+
+// rawEdgeConds: the branch conditions known on the edge from -> to, unexpanded: those of from's dominators
+// and from's own branch.
+func rawEdgeConds(from, to *ssa.BasicBlock) []Guard {
+	out := edgeGuardsRaw(from, to)
+	if len(from.Instrs) > 0 {
+		if iff, ok := from.Instrs[len(from.Instrs)-1].(*ssa.If); ok && from.Succs[0] != from.Succs[1] {
+			if from.Succs[0] == to {
+				out = append(out, Guard{iff.Cond, true, iff})
+			} else if from.Succs[1] == to {
+				out = append(out, Guard{iff.Cond, false, iff})
 			}
 		}
 	}
